@@ -331,13 +331,18 @@ where
 
 fn make_abbreviated_namespace(namespace: &str, existing_namespaces: &[Rc<Namespace>]) -> String {
     fn take_three_chars_max(namespace: &str) -> String {
-        namespace.chars().filter(|c| c != &'.').take(3).collect()
+        namespace.chars().filter(|c| c.is_ascii_alphanumeric()).take(3).collect()
     }
 
     let mut append: Option<usize> = None;
 
-    let abbreviation = if let Some(last_segment) = namespace.split('/').next_back() {
-        if let Some(slashed) = last_segment.split('-').next_back() {
+    fn is_name_char(c: char) -> bool {
+        c.is_ascii_alphanumeric()
+    }
+
+    // the last segment that holds a letter or digit (a namespace may end in a slash)
+    let abbreviation = if let Some(last_segment) = namespace.split('/').rfind(|s| s.chars().any(is_name_char)) {
+        if let Some(slashed) = last_segment.split('-').rfind(|s| s.chars().any(is_name_char)) {
             take_three_chars_max(slashed)
         } else {
             take_three_chars_max(last_segment)
@@ -346,7 +351,14 @@ fn make_abbreviated_namespace(namespace: &str, existing_namespaces: &[Rc<Namespa
         take_three_chars_max(namespace)
     };
 
-    let abbreviation = abbreviation.to_lowercase();
+    // the abbreviation is used as XML prefix and as part of a Rust module name: ASCII letters and digits only,
+    // starting with a letter
+    let abbreviation: String = abbreviation.to_lowercase().chars().filter(|c| is_name_char(*c)).collect();
+    let abbreviation = if abbreviation.chars().next().is_some_and(|c| c.is_ascii_alphabetic()) {
+        abbreviation
+    } else {
+        format!("ns{abbreviation}")
+    };
 
     loop {
         let use_abbreviation = if let Some(append) = append {
